@@ -163,6 +163,28 @@ def io_cost_tables(ctx):
                   "the scanf result is not compared with the number of conversions (%d)" % n_conv)
     gc = ctx.fn1("Oomd::CgroupContext::getIoCostCumulative")
     Xg = Expander(P, gc)
+    # the cost is a sum of per-device dot products: the raw 64-bit counters of DIFFERENT devices are never added to each other before
+    # the (floating) coefficients are applied - that sum can overflow int64 and rounds differently from the documented per-device formula
+    folded = []
+    for i, n in enumerate(gc.nodes):
+        tgt = None
+        if n["k"] == "call" and n.get("op") in ("+=", "=") and "recv" in n and n.get("op") == "+=":
+            tgt = n["recv"]
+        elif n["k"] == "bin" and n.get("op") == "+=":
+            ln = gc.nodes[gc.strip(n["l"])]
+            tgt = ln.get("base") if ln["k"] == "member" else None
+        if tgt is None:
+            continue
+        tn = gc.nodes[gc.strip(tgt)]
+        if tn.get("k") == "ref" and tn.get("dk") == "local" and "DeviceIOStat" in (tn.get("type") or ""):
+            folded.append((i, tn["name"]))
+    ctx.check(not folded, "io-cost:counters-stay-per-device", "effect (accumulation type)", gc.loc(folded[0][0]) if folded else gc.loc(),
+              "no DeviceIOStat accumulator: coefficients are applied to each device's own counters",
+              "getIoCostCumulative adds the raw counters of several devices into '%s' before the coefficients are applied: the integer sum of two devices of "
+              "one class can overflow int64 (a cgroup that did MORE I/O reports a negative cost) and (a1+a2)*c rounds differently from a1*c + a2*c"
+              % (folded[0][1] if folded else ""))
+    if folded:
+        return
     # the accumulator: the floating local that is returned and `+=`-ed (whatever it is called)
     acc = sorted({gc.text(n["l"]) for n in gc.nodes if n["k"] == "bin" and n.get("op") == "+=" and re.match(r"^\w+$", gc.text(n["l"]))} &
                  {ret_text(gc, r) for r in returns(gc)})
